@@ -9,6 +9,114 @@ impl<T> HeapNode<T> {
     }
 }
 
+/// Builds ANY heap-ordered multiway tree over the member subset of 4 nodes from a symbolic parent map
+/// (with acyclicity rank) and sibling order; the caller has set the keys. Kani only (uses assume).
+#[cfg(kani)]
+pub(crate) unsafe fn verif_build4<T: Ord>(heap: &mut PairingHeap<T>, tab: &[*mut HeapNode<T>; 4], member: &[bool; 4]) {
+    const K: usize = 4;
+    let par: [u8; K] = kani::any();
+    let dep: [u8; K] = kani::any();
+    let rank: [u8; K] = kani::any();
+    let mut i = 0;
+    let mut roots = 0;
+    let mut cntm = 0;
+    while i < K {
+        kani::assume(par[i] as usize <= K && dep[i] as usize <= K && (rank[i] as usize) < K);
+        if member[i] {
+            cntm += 1;
+            if par[i] as usize == K { roots += 1; } else {
+                let p = par[i] as usize;
+                kani::assume(p != i && member[p] && dep[p] < dep[i] && !((*tab[i]).data < (*tab[p]).data));
+            }
+        }
+        let mut j = 0;
+        while j < i { kani::assume(rank[i] != rank[j]); j += 1; }
+        i += 1;
+    }
+    kani::assume((cntm == 0 && roots == 0) || roots == 1);
+    i = 0;
+    while i < K {
+        if member[i] {
+            if par[i] as usize == K {
+                heap.root = NonNull::new(tab[i]);
+            } else {
+                let p = par[i] as usize;
+                (*tab[i]).parent = NonNull::new(tab[p]);
+                let mut prev: usize = K;
+                let mut next: usize = K;
+                let mut j = 0;
+                while j < K {
+                    if j != i && member[j] && par[j] == par[i] {
+                        if rank[j] < rank[i] && (prev == K || rank[prev] < rank[j]) { prev = j; }
+                        if rank[j] > rank[i] && (next == K || rank[next] > rank[j]) { next = j; }
+                    }
+                    j += 1;
+                }
+                if prev != K { (*tab[i]).prev = NonNull::new(tab[prev]); } else { (*tab[p]).first_child = NonNull::new(tab[i]); }
+                if next != K { (*tab[i]).next = NonNull::new(tab[next]); }
+            }
+        }
+        i += 1;
+    }
+}
+
+/// Structural validator, generic: exactly the members are linked into one heap-ordered tree.
+pub(crate) unsafe fn verif_validate4<T: Ord>(heap: &PairingHeap<T>, tab: &[*mut HeapNode<T>; 4], member: &[bool; 4]) -> bool {
+    const K: usize = 4;
+    let idx = |p: NonNull<HeapNode<T>>| -> usize {
+        let mut i = 0;
+        while i < K { if tab[i] == p.as_ptr() { return i; } i += 1; }
+        K
+    };
+    let mut cnt = 0usize;
+    let mut roots = 0usize;
+    let mut i = 0;
+    while i < K {
+        let n = &*tab[i];
+        let me = NonNull::new(tab[i]);
+        if !member[i] {
+            if !n.verif_unlinked() { return false; }
+        } else {
+            cnt += 1;
+            match n.parent {
+                None => {
+                    roots += 1;
+                    if heap.root != me || n.prev.is_some() || n.next.is_some() { return false; }
+                }
+                Some(p) => {
+                    let pi = idx(p);
+                    if !(pi < K && member[pi] && pi != i) { return false; }
+                    if n.data < (*tab[pi]).data { return false; }
+                    match n.prev {
+                        None => { if (*tab[pi]).first_child != me { return false; } }
+                        Some(q) => {
+                            let qi = idx(q);
+                            if !(qi < K && member[qi] && (*tab[qi]).next == me && (*tab[qi]).parent == n.parent) { return false; }
+                        }
+                    }
+                }
+            }
+            if let Some(q) = n.next {
+                let qi = idx(q);
+                if !(qi < K && member[qi] && (*tab[qi]).prev == me) { return false; }
+            }
+            if let Some(c) = n.first_child {
+                let ci = idx(c);
+                if !(ci < K && member[ci] && (*tab[ci]).parent == me && (*tab[ci]).prev.is_none()) { return false; }
+            }
+            let mut cur = n;
+            let mut d = 0;
+            while d < K {
+                match cur.parent { None => break, Some(p) => { cur = &*p.as_ptr(); } }
+                d += 1;
+            }
+            if cur.parent.is_some() { return false; }
+        }
+        i += 1;
+    }
+    if cnt == 0 { heap.root.is_none() } else { roots == 1 }
+}
+
 pub(crate) mod verif_heap {
     use super::*;
     use crate::verif::common::*;
